@@ -32,7 +32,7 @@ PROPS = {
 PROPS.update({
     "C01": {
         "level": "proof",
-        "text": "Kernel-checked theorems over every label list: at_most_once, handled_were_accepted, rejected_never (state form and on the monitor predicate evaluated on real traces), graceful_complete (everything the loop has dequeued has been handled) and marker_is_next (when the loop dequeues a stop marker everything accepted before it has been dequeued). The model's mailbox is tied to the code by per-run correspondence; the acceptance probe makes 'accepted' observable on the real side; monitors C01.atMostOnce / rejectedNever / gracefulComplete run on every real trace. Stress scenario `selfchain`: work that keeps itself alive - each handler tells its own actor the next step (directly, through a task holding a clone, or by upgrading a weak handle) after the spawner dropped its handle: every step is handled before on_stop.",
+        "text": "Kernel-checked theorems over every label list: at_most_once, handled_were_accepted, rejected_never (state form and on the monitor predicate evaluated on real traces), graceful_complete (everything the loop has dequeued has been handled) and marker_is_next (when the loop dequeues a stop marker everything accepted before it has been dequeued). The model's mailbox is tied to the code by per-run correspondence; the acceptance probe makes 'accepted' observable on the real side; monitors C01.atMostOnce / rejectedNever / gracefulComplete run on every real trace. Stress scenario `selfchain`: work that keeps itself alive - each handler tells its own actor the next step (directly, through a task holding a clone, or by upgrading a weak handle) after the spawner dropped its handle: every step is handled before on_stop. Progress: accepted_message_is_not_left_waiting - when nothing can run any more, no accepted message sits in the mailbox of an idle actor.",
         "note": PROOF_NOTE + "",
         "technique": "Lean 4 invariant proofs (FIFO log, id freshness, rejection) by induction over label sequences + correspondence + Lean monitors on real traces",
         "extra": ["stress"],
@@ -115,7 +115,7 @@ PROPS.update({
     },
     "C06": {
         "level": "proof",
-        "text": "Kernel-checked: kill_total (in every state kill() is enabled, returns Ok in its own label, queues nothing, records nothing), kill_bound (on the monitor predicate: after kill() on an actor that had not begun to stop at most one further handler starts, for every schedule and queue content; the bound is shown tight), kill_not_lost, kill_prompt. Monitors C06.killTotal / killBound / killOutcome / leftoversFail on every real trace; burst family lands kills at every phase with full mailboxes. Script family `abandon` (sends given up by their callers while queued, then kill / stop / nothing) and, on settled traces, monitor C06.killEnds: an actor on which kill() has returned has ended (the safety half is kill_not_lost + kill_prompt). On the single-threaded correspondence the monitors are the atomic ones: after a kill() that returned on a not-yet-stopping actor no handler starts (killBoundAtomic), no on_run pass begins or completes (noRunAfterKill) and the next on_stop is on_stop(true) (killWins).",
+        "text": "Kernel-checked: kill_total (in every state kill() is enabled, returns Ok in its own label, queues nothing, records nothing), kill_bound (on the monitor predicate: after kill() on an actor that had not begun to stop at most one further handler starts, for every schedule and queue content; the bound is shown tight), kill_not_lost, kill_prompt. Monitors C06.killTotal / killBound / killOutcome / leftoversFail on every real trace; burst family lands kills at every phase with full mailboxes. Script family `abandon` (sends given up by their callers while queued, then kill / stop / nothing) and, on settled traces, monitor C06.killEnds: an actor on which kill() has returned has ended (the safety half is kill_not_lost + kill_prompt). On the single-threaded correspondence the monitors are the atomic ones: after a kill() that returned on a not-yet-stopping actor no handler starts (killBoundAtomic), no on_run pass begins or completes (noRunAfterKill) and the next on_stop is on_stop(true) (killWins). Progress: killed_actor_does_not_idle - when nothing can run any more, an actor with a pending kill has ended or is inside the hook that was in progress.",
         "note": PROOF_NOTE,
         "technique": "Lean 4 fold-invariant proof (budget argument over the split select) + correspondence + Lean monitors on real traces",
         "extra": ["stress"],
@@ -129,7 +129,7 @@ PROPS.update({
 PROPS.update({
     "C07": {
         "level": "proof",
-        "text": "Kernel-checked step theorems (for every state, hence every reachable one): never_spontaneous (a live actor begins to stop only by consuming a kill, observing zero strong references, dequeuing the stop marker, or an on_run error), ends_only_after_stop_or_crash, weak_dont_count, upgrade_iff, closed_means_unreferenced (the reference count includes handles, queued envelopes and markers, blocked senders, the running handler, operations in flight), and progress lemmas ends_when_unreferenced / ends_when_stopped. On real traces: C07.neverSpontaneous on every trace and endsWhenDue on settled (fully drained) traces; the handles family walks clone/drop/downgrade/upgrade histories. Stress scenario `backlog`: with any kind of on_run and backlogs of up to 200 queued messages, stop() or the drop of the last reference ends the actor after all of them were handled.",
+        "text": "Kernel-checked step theorems (for every state, hence every reachable one): never_spontaneous (a live actor begins to stop only by consuming a kill, observing zero strong references, dequeuing the stop marker, or an on_run error), ends_only_after_stop_or_crash, weak_dont_count, upgrade_iff, closed_means_unreferenced (the reference count includes handles, queued envelopes and markers, blocked senders, the running handler, operations in flight), and progress lemmas ends_when_unreferenced / ends_when_stopped. On real traces: C07.neverSpontaneous on every trace and endsWhenDue on settled (fully drained) traces; the handles family walks clone/drop/downgrade/upgrade histories. Stress scenario `backlog`: with any kind of on_run and backlogs of up to 200 queued messages, stop() or the drop of the last reference ends the actor after all of them were handled. Progress: unreferenced_actor_does_not_idle / idle_actor_is_referenced - when nothing can run any more, an actor without strong references has ended (or is inside a hook waiting for its own event), and an actor that idles is referenced, has no kill pending and an empty mailbox.",
         "note": PROOF_NOTE + " Liveness (the JoinHandle eventually resolves) is stated as progress lemmas plus the settled-trace monitor, not as a temporal theorem.",
         "technique": "Lean 4 case-analysis theorems on the step function + correspondence on handle histories + Lean monitors on settled real traces",
         "monitors": ["C07", "C01", "C02"],
